@@ -10,6 +10,7 @@
 #include "cmd_fileio.h"
 #include "cmd_det.h"
 #include "cmd_util.h"
+#include "cmd_listing.h"
 
 static void register_all()
 {
@@ -23,4 +24,5 @@ static void register_all()
   register_fileio();
   register_det();
   register_util();
+  register_listing();
 }
